@@ -283,4 +283,73 @@ theorem scan_any_schedule {α : Type} {P : PartSpec} (h : IsStd P) (hr : ∀ j, 
   have := hsched.perm
   rwa [callLogs_flatten_of_std h hr data n size hs] at this
 
+
+/-! ## Block jobs -/
+
+namespace TMesh
+variable {V : Type}
+
+theorem wf_append {a b : TMesh V} (ha : a.WF) (hb : b.WF) : (a.append b).WF := by
+  intro t ht
+  simp only [append, List.mem_append, List.mem_map] at ht
+  simp only [append, List.length_append]
+  rcases ht with ht | ⟨u, hu, rfl⟩
+  · have := ha t ht; omega
+  · have := hb u hu; simp only [shift]; omega
+
+theorem corners_append {a b : TMesh V} (ha : a.WF) : (a.append b).corners = a.corners ++ b.corners := by
+  simp only [corners, append, List.map_append, List.map_map]
+  congr 1
+  · apply List.map_congr_left
+    intro t ht
+    have := ha t ht
+    simp only [List.getElem?_append_left this.1, List.getElem?_append_left this.2.1, List.getElem?_append_left this.2.2]
+  · apply List.map_congr_left
+    intro t _
+    simp [shift, List.getElem?_append_right]
+
+theorem foldl_append_spec : ∀ (l : List (TMesh V)) (acc : TMesh V), acc.WF → (∀ m ∈ l, m.WF) →
+    (l.foldl append acc).WF ∧ (l.foldl append acc).corners = acc.corners ++ (l.map corners).flatten
+  | [], acc, hacc, _ => by simp [hacc]
+  | m :: l, acc, hacc, hl => by
+    have hm : m.WF := hl m (List.mem_cons_self)
+    have := foldl_append_spec l (acc.append m) (wf_append hacc hm) (fun x hx => hl x (List.mem_cons_of_mem _ hx))
+    simp only [List.foldl_cons, List.map_cons, List.flatten_cons]
+    rw [this.2, corners_append hacc, List.append_assoc]
+    exact ⟨this.1, rfl⟩
+
+theorem corners_mergeAll (l : List (TMesh V)) (hl : ∀ m ∈ l, m.WF) :
+    (mergeAll l).corners = (l.map corners).flatten := by
+  have := (foldl_append_spec l empty (by intro t ht; simp [empty] at ht) hl).2
+  simpa [mergeAll, corners, empty] using this
+
+end TMesh
+
+/-- per axis: the clamped block ranges `[start c, end c)` partition the padded domain `[lo, hi)`; blocks are `width` wide -/
+structure AxisPartition (chunkOf : Int → Int) (start end_ : Int → Int → Int → Int) : Prop where
+  /-- every sample of the padded domain lies in the clamped range of its own block, which is one of the enumerated blocks -/
+  own : ∀ lo hi x, lo ≤ x → x < hi →
+    chunkOf lo ≤ chunkOf x ∧ chunkOf x ≤ chunkOf hi ∧ start (chunkOf x) lo hi ≤ x ∧ x < end_ (chunkOf x) lo hi
+  /-- a block's clamped range contains only samples of the padded domain that belong to that very block: ranges of
+      different blocks are disjoint -/
+  unique : ∀ lo hi c x, start c lo hi ≤ x → x < end_ c lo hi → c = chunkOf x ∧ lo ≤ x ∧ x < hi
+  /-- …and their block-local coordinate is a valid cell coordinate -/
+  inBlock : ∀ lo hi c x, start c lo hi ≤ x → x < end_ c lo hi → 0 ≤ x - c * 100 ∧ x - c * 100 < 100
+
+theorem axisPartition_std (chunkOf : Int → Int) (start end_ : Int → Int → Int → Int)
+    (hc : ∀ x, chunkOf x = x / 100)
+    (hs : ∀ c lo hi, start c lo hi = if c * 100 < lo then lo else c * 100)
+    (he : ∀ c lo hi, end_ c lo hi = if c * 100 + 100 > hi then hi else c * 100 + 100) :
+    AxisPartition chunkOf start end_ := by
+  constructor
+  · intro lo hi x h1 h2
+    rw [hs, he, hc, hc, hc]
+    split <;> split <;> omega
+  · intro lo hi c x
+    rw [hs, he, hc]
+    split <;> split <;> omega
+  · intro lo hi c x
+    rw [hs, he]
+    split <;> split <;> omega
+
 end PolyVerif.Par
